@@ -88,6 +88,7 @@ REGIONS = {
     'cotp-reference-order': (('COTPConnectionRequest', 'COTPConnectionConfirm'),
                              lambda o: ops.as_int(o.f['src_ref']) != ops.as_int(o.f['dst_ref']), ('K6',)),
     'mysql-handshake-v10-domain': (('MySQLHandshakeV10',), lambda o: True, ('K3',)),
+    'ssh-cert-option-data-not-nested': (('SshCertExtensionForceCommand', 'SshCertExtensionSourceAddress'), lambda o: True, ('K6',)),
     'openvpn-tcp-wrapper-no-eq': (('OpenVpnPacketWrapperTcp',), lambda o: True, ('K3',)),
 }
 
@@ -203,6 +204,23 @@ def w_openvpn_tcp():
     return _rt(OpenVpnPacketWrapperTcp(b'ab'))
 
 
+def w_cert_option():
+    import struct
+    from cryptoparser.ssh.key import SshCertExtensionForceCommand, SshCertCriticalOptionVector
+    st = lambda b: struct.pack('!I', len(b)) + b
+    # the option as ssh-keygen writes it: string name, string data with data = string(command)
+    openssh = st(b'force-command') + st(st(b'/bin/true'))
+    got = bytes(SshCertExtensionForceCommand('/bin/true').compose())
+    try:
+        back = SshCertCriticalOptionVector.parse_exact_size(st(openssh))[0].command
+    except Exception as ex:
+        back = repr(ex)
+    if got == openssh and back == '/bin/true':
+        return dict(reproduced=False, observed='the value is a packed string inside the data field')
+    return dict(reproduced=True, call="SshCertExtensionForceCommand('/bin/true').compose(); SshCertCriticalOptionVector.parse_exact_size(<the option as OpenSSH writes it>)[0].command",
+                observed='%s; %r' % (got.hex(), back), expected='%s; %r' % (openssh.hex(), '/bin/true'))
+
+
 def w_cotp():
     from cryptoparser.tls.rdp import COTPConnectionRequest
     wire = bytes(COTPConnectionRequest(src_ref=0x0102, dst_ref=0x0304, user_data=b'').compose())
@@ -217,6 +235,7 @@ WITNESSES = {
     'datetime-awareness': w_datetime_awareness,
     'dns-name-empty-label': w_empty_label,
     'cotp-reference-order': w_cotp,
+    'ssh-cert-option-data-not-nested': w_cert_option,
     'tpkt-version-not-3': w_tpkt,
     'tpkt-version-not-3/prefix': w_tpkt_prefix,
     'padding-negative-length': w_padding,
